@@ -33,6 +33,7 @@ func (fi *FuncInfo) Body() *ast.BlockStmt {
 func (fi *FuncInfo) FullKey() string { return fi.Pkg.PkgPath + "::" + fi.Key }
 
 type Prog struct {
+	curProp string // property being checked (scopes which tagged clauses take part)
 	u       *Universe
 	fset    *token.FileSet
 	pkgs    map[string]*packages.Package
@@ -326,6 +327,7 @@ type VC struct {
 	bvN         int
 	havocKnown  map[string]map[string]bool
 	abstracted  []string // callees without contract (abstracted by havoc)
+	curProp     string // property being checked ("": all clauses)
 	addrTaken   map[types.Object]bool // locals whose address is taken (kept in a cell from their first assignment)
 	boundAssume []string // size bounds assumed by the bounded counterexample search
 	unroll      int      // >0: counterexample search mode (loops unrolled, never used for proofs)
@@ -427,4 +429,36 @@ func (p *Prog) sortedPkgs() []*packages.Package {
 		out[i] = p.pkgs[k]
 	}
 	return out
+}
+
+// wanted reports whether a clause tagged with props takes part in the current run: untagged clauses always do;
+// tagged ones only when checking one of their properties or a property declared to depend on one of them.
+// Dropping the other clauses is sound: their obligations belong to (and are discharged in) the runs of their own
+// properties, and as assumptions they are simply not used here.
+func (vc *VC) wanted(props []string) bool {
+	if vc.curProp == "" || len(props) == 0 {
+		return true
+	}
+	if _, scoped := vc.p.con.Deps[vc.curProp]; !scoped {
+		// no `depends` declaration for this property: every clause takes part
+		return true
+	}
+	seen := map[string]bool{}
+	var close func(p string)
+	close = func(p string) {
+		if seen[p] {
+			return
+		}
+		seen[p] = true
+		for _, d := range vc.p.con.Deps[p] {
+			close(d)
+		}
+	}
+	close(vc.curProp)
+	for _, p := range props {
+		if seen[p] {
+			return true
+		}
+	}
+	return false
 }
